@@ -91,13 +91,25 @@ def run(ctx):
                   protect=nonconst_set_position)
     R.bound_guard(ctx, "C02.R2", "<%s<R> as noodles_bgzf::io::seek::Seek>::seek_to_virtual_position" % MT,
                   "upos compared with block data length before set_position", len_cmp, protect=nonconst_set_position)
+    # the async twin (defect F42: the table below used to excuse the async seek with "an offset past the data reads as an exhausted
+    # block" — which is exactly the silent jump into the next block that the sync reader rejects)
+    R.bound_guard(ctx, "C02.R2", "noodles_bgzf::r#async::io::reader::set_block_data_position",
+                  "upos compared with block data length before set_position (async seek / poll_seek)", len_cmp, protect=nonconst_set_position)
+    for akey in (AR + "seek", AR + "poll_seek"):
+        fa2 = ctx.body("C02.R2", akey) if akey.endswith("::seek") else ctx.anchor("C02.R2", akey)
+        if fa2 is not None:
+            if R.find_calls(fa2, r"r#async::io::reader::set_block_data_position$"):
+                ctx.ok("C02.R2", akey + " positions the in-block cursor through the guarded helper", "", fa2.loc())
+            else:
+                ctx.violation("C02.R2", "C02.R2/async-seek-unguarded/" + akey,
+                              "%s no longer positions the in-block cursor through set_block_data_position (upos <= data length): an offset "
+                              "beyond the block is accepted and reading silently continues in the next block" % akey, fa2.loc())
     # callers of Data::set_position with a non-constant argument: confirmed table
     SETPOS = {
         RD + "seek": "guarded (above)",
         "<%s<R> as noodles_bgzf::io::seek::Seek>::seek_to_virtual_position" % MT: "guarded (above)",
         "noodles_bgzf::io::reader::frame::parse_block_into_buf": "set_position(isize) right after block_initialize(.., isize): pos == len",
-        AR + "seek": "async reader never slices without has_remaining(); an offset past the data reads as exhausted block",
-        AR + "poll_seek": "same as async seek",
+        "noodles_bgzf::r#async::io::reader::set_block_data_position": "guarded (below): the async seek / poll_seek position the cursor through this helper (defect F42)",
     }
     callers = {}
     for k, f in fb.fns.items():
